@@ -24,6 +24,11 @@ def geometry(rng, kind):
         for _ in range(3):
             z.append(z[-1] + r(0.75, 1.25))
         return "; ".join(f"H 0 0 {x:.3f}" for x in z), [0, 2], 0
+    if kind == "H4stretched":
+        z = [0.0]
+        for _ in range(3):
+            z.append(z[-1] + r(1.9, 2.4))
+        return "; ".join(f"H 0 0 {x:.3f}" for x in z), [0], 0
     if kind == "H4ring":
         rad = r(0.8, 1.1)
         pts = []
